@@ -1147,6 +1147,60 @@ def check_from_networkx(case):
     return out
 
 
+NX_LABELS = {
+    'one-based': lambda i: i, 'zero-based': lambda i: i - 1, 'gaps': lambda i: 10 * i + 3,
+    'digit-strings': lambda i: str(i + 4), 'names': lambda i: 'v' + 'abcdefgh'[i - 1],
+}
+
+
+def check_from_networkx_plain(case):
+    """Graph / DirectedGraph.from_networkx for every labelling scheme: the
+    result has the vertices and edges of the source (integer-like labels in
+    numeric order), and the SOURCE is the same networkx graph afterwards --
+    same nodes, same attributes, same edges."""
+    import copy
+    import networkx
+    from cnfgen.graphs import Graph, DirectedGraph
+    n, edges, directed = case['n'], [tuple(e) for e in case['edges']], case['directed']
+    out = []
+    for scheme, lab in sorted(NX_LABELS.items()):
+        for order in ('ascending', 'descending'):
+            X = networkx.DiGraph() if directed else networkx.Graph()
+            X.graph['name'] = 'source graph'
+            for i in (range(1, n + 1) if order == 'ascending' else range(n, 0, -1)):
+                X.add_node(lab(i), colour='c%d' % i)
+            for (u, v) in edges:
+                X.add_edge(lab(u), lab(v), weight=u + v)
+            before = (copy.deepcopy(list(X.nodes(data=True))), copy.deepcopy(list(X.edges(data=True))),
+                      dict(X.graph))
+            cls = DirectedGraph if directed else Graph
+            try:
+                G = cls.from_networkx(X)
+                got = (G.number_of_vertices(), sorted(tuple(e) for e in G.edges()))
+            except Exception as e:
+                out.append({'key': '%s.from_networkx:%s:exception:%s' % (cls.__name__, scheme, type(e).__name__),
+                            'what': '%r for %d vertices, edges %r' % (e, n, edges), 'case': dict(case)})
+                continue
+            after = (list(X.nodes(data=True)), list(X.edges(data=True)), dict(X.graph))
+            if after != before:
+                out.append({'key': '%s.from_networkx:%s:source-graph-changed' % (cls.__name__, scheme),
+                            'what': 'the networkx graph given to from_networkx had nodes %r, edges %r; '
+                                    'afterwards nodes %r, edges %r' % (before[0][:4], before[1][:4],
+                                                                       after[0][:4], after[1][:4]),
+                            'case': dict(case)})
+            if scheme != 'names':
+                want = (n, sorted((min(u, v), max(u, v)) if not directed else (u, v) for (u, v) in edges))
+                if got != want:
+                    out.append({'key': '%s.from_networkx:%s:edges-differ' % (cls.__name__, scheme),
+                                'what': 'got %r, the networkx graph (%s labels, inserted %s) has %r' %
+                                        (got, scheme, order, want), 'case': dict(case)})
+            elif got[0] != n or len(got[1]) != len(set(edges)):
+                out.append({'key': '%s.from_networkx:%s:size-differs' % (cls.__name__, scheme),
+                            'what': 'got %r for %d vertices and %d edges' % (got, n, len(set(edges))),
+                            'case': dict(case)})
+    return out
+
+
 def held_view_histories(kind, depth):
     """Every history of <= depth operations from small start graphs, as
     (start, [ops]); the alphabet depends on the current size."""
@@ -1249,6 +1303,20 @@ def run_extra(args, R):
         R.case(sample={'part': 'large', 'kind': args['kind'], 'operations': nops}, nontrivial=True)
         R.extend(vs)
         return
+    for n in range(0, 4):
+        for es in scope_.simple_graphs(n):
+            case = {'part': 'nxplain', 'n': n, 'edges': [list(e) for e in es], 'directed': False}
+            R.extend(check_from_networkx_plain(case))
+            R.stats['from_networkx_orders'] += 10
+            R.stats['executions'] += 10
+            R.case(sample=case if R.evals % 40 == 0 else None, nontrivial=n > 0)
+        for es in scope_.digraphs(n, loops=False):
+            if n <= 2 or len(es) <= 3:
+                case = {'part': 'nxplain', 'n': n, 'edges': [list(e) for e in es], 'directed': True}
+                R.extend(check_from_networkx_plain(case))
+                R.stats['from_networkx_orders'] += 10
+                R.stats['executions'] += 10
+                R.case(sample=None, nontrivial=n > 0)
     sizes = [(L, Rr) for L in range(0, 4) for Rr in range(0, 4)]
     for (L, Rr) in sizes:
         for es in scope_.bipartite_graphs(L, Rr):
@@ -1359,6 +1427,8 @@ def replay(case):
         return check_from_networkx(case)
     if case.get('part') == 'held':
         return check_held_view(case)
+    if case.get('part') == 'nxplain':
+        return check_from_networkx_plain(case)
     OBS.clear()
     st0, v = _initial_or_violation(case)
     if v is not None:
